@@ -10,6 +10,8 @@ for d in sorted(glob.glob(os.path.join(os.path.dirname(os.path.dirname(os.path.a
     am = m.get("agent_meta", {})
     line = (m.get("check", {}).get("lines") or [""])
     how = "replay" if (line and "no-failing-input-found" not in line[0] and m.get("caught")) else ("no-failing-input-found" if m.get("caught") else "MISSED")
+    if m.get("superseded_by_fix") and not m.get("caught"):
+        how = "harmless after fix %s" % m["superseded_by_fix"]
     what = (line[1] if len(line) > 1 else "").replace("  what: ", "").replace("|", "/")[:110]
     rows.append("| %s | %s | %s | %s | %s |" % (os.path.basename(d), (am.get("summary") or "")[:110].replace("|", "/"),
                                              (am.get("needs") or "")[:90].replace("|", "/"), how, what))
